@@ -840,7 +840,8 @@ def run(ctx):
     else:
         ctx.violation(Finding('R-RECLEN', RP, 'maparlpackedbit', hd[0], 'index record is %s bytes but a data record is %s bytes: records are not of equal length' % (total, data_rec)))
     # ---- R-LAYKEYSHAPE
-    consumer_pairs = any(isinstance(n, ast.comprehension) and isinstance(n.target, ast.Tuple) and norm(n.iter) == 'laykeys' for n in ast.walk(mp))
+    consumer_pairs = any(isinstance(n, ast.comprehension) and isinstance(n.target, ast.Tuple) and norm(n.iter) == 'laykeys' for n in ast.walk(mp)) or \
+        any(isinstance(n, ast.For) and isinstance(n.target, ast.Tuple) and len(n.target.elts) == 2 and norm(n.iter) == 'laykeys' for n in ast.walk(mp))      # the same unpacking as a loop
     prod_r = [st for st in iter_stmts(rvd.body) if isinstance(st, ast.Assign) and "out['laykeys']" in norm(st.targets[0])]
     reader_pairs = bool(prod_r) and isinstance(prod_r[0].value, ast.ListComp) and isinstance(prod_r[0].value.elt, ast.Tuple)
     appends = [c for c in walk_expr(wr) if isinstance(c, ast.Call) and dotted(c.func) == 'laykeys.append']
